@@ -278,7 +278,7 @@ def main():
     run.assumptions += ["flows / raw column bytes of a block class are seeded samples; 'big' blocks hold 6000-8000 flows so that a "
                         "compressible column exceeds its compressed size by more than GPFile's 8 KiB scratch slice",
                         "levels are sampled from {default, 1, max} per write-out (pure-Go zstd: from its four level classes, the slowest rarely)",
-                        "expected column bytes of a flow block are computed by harness/internal/store.Columns from exported goProbe "
+                        "expected column bytes of a flow block are computed by harness/internal/codec.Columns from exported goProbe "
                         "pieces (a divergence there would fail same-build pairs too)",
                         "quick tier: builds cgo and CGO_ENABLED=0 only (4 ordered pairs); thorough: all 16 pairs"]
     return run.finish()
